@@ -41,8 +41,12 @@ pub fn clock_get() -> std::result::Result<Clock, ProgramError> {
 pub fn sol_log(_m: &str) {}
 
 /// `format!` returns an empty string (error messages are not the subject of any property).
+///
+/// The string owns a one-byte allocation on purpose: with `String::new()` CBMC sometimes reads the
+/// zero-capacity constant of the empty `RawVec` as an unconstrained value and then reports a bogus
+/// `__rust_dealloc` failure when the caller drops the string (seen with Kani 0.68 / CBMC 6.11).
 pub fn fmt_format(_a: std::fmt::Arguments<'_>) -> String {
-    String::new()
+    String::with_capacity(1)
 }
 
 #[cfg(vh_native)]
@@ -119,4 +123,65 @@ pub fn lp_error_name(_e: &gmsol_liquidity_provider::ErrorCode) -> String {
 }
 pub fn fmt_lp_error(_e: &gmsol_liquidity_provider::ErrorCode, _f: &mut std::fmt::Formatter<'_>) -> std::fmt::Result {
     Ok(())
+}
+
+/// Abstract monotone kernel standing for `<u128 as MulDiv>::checked_mul_div(x, n, d)` in the
+/// reward-monotonicity harness (pattern P5, memoised nondeterministic function): the result is an
+/// arbitrary `Option<u128>` (`None` = does not fit) that is (a) a function of its arguments and
+/// (b) non-decreasing in `x` and in `n` for a fixed `d`, with `None` above every `Some`. That
+/// `floor(x*n/d)` has these two properties is arithmetic (and C01's subject); what the harness
+/// decides is that the code built on top of it preserves monotonicity.
+pub mod monotone_kernel {
+    const SLOTS: usize = 4;
+    static mut USED: usize = 0;
+    static mut XS: [u128; SLOTS] = [0; SLOTS];
+    static mut NS: [u128; SLOTS] = [0; SLOTS];
+    static mut DS: [u128; SLOTS] = [0; SLOTS];
+    static mut RS: [Option<u128>; SLOTS] = [None; SLOTS];
+
+    fn le(a: Option<u128>, b: Option<u128>) -> bool {
+        match (a, b) {
+            (_, None) => true,
+            (None, Some(_)) => false,
+            (Some(x), Some(y)) => x <= y,
+        }
+    }
+
+    pub fn reset() {
+        unsafe { USED = 0 };
+    }
+
+    pub fn mul_div(x: &u128, n: &u128, d: &u128) -> Option<u128> {
+        #[cfg(kani)]
+        unsafe {
+            assert!(USED < SLOTS, "monotone kernel: more calls than memo slots");
+            let r: Option<u128> = if kani::any() { Some(kani::any()) } else { None };
+            let mut i = 0;
+            while i < SLOTS {
+                if i < USED && DS[i] == *d {
+                    if XS[i] <= *x && NS[i] <= *n {
+                        kani::assume(le(RS[i], r));
+                    }
+                    if *x <= XS[i] && *n <= NS[i] {
+                        kani::assume(le(r, RS[i]));
+                    }
+                }
+                i += 1;
+            }
+            XS[USED] = *x;
+            NS[USED] = *n;
+            DS[USED] = *d;
+            RS[USED] = r;
+            USED += 1;
+            return r;
+        }
+        #[cfg(not(kani))]
+        {
+            // native replay: the real arithmetic (exact where it fits)
+            if *d == 0 {
+                return None;
+            }
+            x.checked_mul(*n).map(|p| p / *d)
+        }
+    }
 }
